@@ -39,9 +39,9 @@ NoName == [v |-> -1, u |-> 0]
 NoCutoff == -1
 UUID0 == 1
 
-Max(a, b) == IF a >= b THEN a ELSE b
+MaxI(a, b) == IF a >= b THEN a ELSE b
 SeqToSet(s) == {s[i] : i \in 1..Len(s)}
-Last(s) == s[Len(s)]
+LastOf(s) == s[Len(s)]
 
 (***************************************************************************)
 (* Pure metadata operators (transcriptions).                               *)
@@ -71,7 +71,7 @@ Expire(m, cutoff) ==
 NewSnapshot(base, sid, seq, ts, list, cutoff) ==
   LET s == [id |-> sid, parent |-> base.cur, seq |-> seq, ts |-> ts, list |-> list]
       m1 == [base EXCEPT !.snaps = Append(@, s), !.cur = sid,
-                         !.lastSeq = Max(base.lastSeq, seq), !.slog = Append(@, sid)]
+                         !.lastSeq = MaxI(base.lastSeq, seq), !.slog = Append(@, sid)]
   IN IF cutoff = NoCutoff THEN m1 ELSE Expire(m1, cutoff)
 
 \* snapshot_manager.py:303-317
@@ -92,7 +92,7 @@ DeleteSnap(base, sid) ==
 \* metadata_manager.py:248-283 (trim bound is covered by History.tla)
 AppendMlog(new, prevName) ==
   IF prevName = NoName THEN new
-  ELSE IF Len(new.mlog) > 0 /\ Last(new.mlog) = prevName THEN new
+  ELSE IF Len(new.mlog) > 0 /\ LastOf(new.mlog) = prevName THEN new
   ELSE [new EXCEPT !.mlog = Append(@, prevName)]
 
 SnapOf(m, sid) == CHOOSE s \in SeqToSet(m.snaps) : s.id = sid
@@ -266,21 +266,27 @@ WriteData(a, f) ==
   /\ pc' = [pc EXCEPT ![a] = IF Len(loc[a].files) + 1 < Len(AppendFiles(a)) THEN "tx_marker" ELSE "c_base"]
   /\ UNCHANGED <<hint, metas, metaTime, lists, mans, markers, mtimeM, clock, lockHolder, rlock, opi, att, faults, armed, ghostVars>>
 
+\* no appended files => nothing to validate (no storage call happens): straight to the list
+AfterBase(a) == IF Len(AppendFiles(a)) = 0 THEN "c_wlist_mark" ELSE "c_checkdata"
+
 \* ---- commit attempt: read the base (transaction.py:379) ----
 ReadBase(a, name) ==
   /\ pc[a] = "c_base"
   /\ HandleFree(a)
   /\ CanResolve(name)
   /\ name # NoName
-  /\ LET b == metas[name] IN
+  /\ LET b == metas[name]
+         dangling == IsFileOp(a) /\ b.cur # 0 /\ ~HasSnap(b, b.cur)    \* transaction.py:482-493: abort
+     IN
      /\ loc' = [loc EXCEPT ![a].base = b, ![a].baseName = name,
                            ![a].finalMans = <<>>, ![a].newFiles = {}, ![a].list = 0, ![a].chk = 0, ![a].pend = 0,
-                           ![a].todo = IF b.cur = 0 THEN <<>> ELSE lists[SnapOf(b, b.cur).list],
-                           ![a].seq = b.lastSeq + 1]
+                           ![a].todo = IF b.cur = 0 \/ ~HasSnap(b, b.cur) THEN <<>> ELSE lists[SnapOf(b, b.cur).list],
+                           ![a].seq = b.lastSeq + 1,
+                           ![a].err = IF dangling THEN "error" ELSE "none"]
      /\ pc' = [pc EXCEPT ![a] =
            IF ~IsFileOp(a) THEN "c_tlock"                   \* metadata-only transaction
-           ELSE IF b.cur # 0 /\ ~HasSnap(b, b.cur) THEN "fail"       \* dangling current id: abort
-           ELSE IF b.cur # 0 THEN "c_readlist" ELSE "c_checkdata"]
+           ELSE IF dangling THEN "rollback"
+           ELSE IF b.cur # 0 THEN "c_readlist" ELSE AfterBase(a)]
   /\ att' = [att EXCEPT ![a] = @ + 1]
   /\ UNCHANGED <<storageVars, clock, lockHolder, rlock, opi, faults, armed, ghostVars>>
 
@@ -289,14 +295,15 @@ ReadBaseList(a) ==
   /\ pc[a] = "c_readlist"
   /\ LET l == SnapOf(loc[a].base, loc[a].base.cur).list IN
      IF l \in present
-     THEN pc' = [pc EXCEPT ![a] = IF DeleteFiles(a) # {} THEN "c_readman" ELSE "c_checkdata"]
-     ELSE pc' = [pc EXCEPT ![a] = "fail"]
-  /\ loc' = [loc EXCEPT ![a].finalMans = IF DeleteFiles(a) # {} THEN <<>> ELSE loc[a].todo]
+     THEN /\ pc' = [pc EXCEPT ![a] = IF DeleteFiles(a) # {} /\ Len(loc[a].todo) > 0 THEN "c_readman" ELSE AfterBase(a)]
+          /\ loc' = [loc EXCEPT ![a].finalMans = IF DeleteFiles(a) # {} THEN <<>> ELSE loc[a].todo]
+     ELSE /\ pc' = [pc EXCEPT ![a] = "rollback"]
+          /\ loc' = [loc EXCEPT ![a].err = "error"]
   /\ UNCHANGED <<storageVars, clock, lockHolder, rlock, opi, att, faults, armed, ghostVars>>
 
 \* deletes: read each base manifest; keep / rewrite / drop (transaction.py:507-545)
 \* after a base manifest has been handled: next one, or on to the data check
-AfterMan(a, n) == IF n = 1 THEN "c_checkdata" ELSE "c_readman"
+AfterMan(a, n) == IF n = 1 THEN AfterBase(a) ELSE "c_readman"
 
 ReadManifest(a) ==
   /\ pc[a] = "c_readman"
@@ -304,8 +311,8 @@ ReadManifest(a) ==
   /\ LET m == Head(loc[a].todo)
          surv == {e \in mans[m] : e.file \notin DeleteFiles(a)}
      IN IF m \notin present
-        THEN /\ pc' = [pc EXCEPT ![a] = "fail"]
-             /\ UNCHANGED loc
+        THEN /\ pc' = [pc EXCEPT ![a] = "rollback"]
+             /\ loc' = [loc EXCEPT ![a].err = "error"]
         ELSE IF surv = mans[m]                      \* untouched: keep the manifest
         THEN /\ loc' = [loc EXCEPT ![a].todo = Tail(@), ![a].finalMans = Append(@, m)]
              /\ pc' = [pc EXCEPT ![a] = AfterMan(a, Len(loc[a].todo))]
@@ -343,14 +350,12 @@ RewriteManifest(a, newMan) ==
 \* validate_data_files: every appended file must exist (transaction.py:551)
 CheckData(a) ==
   /\ pc[a] = "c_checkdata"
-  /\ IF loc[a].chk >= Len(AppendFiles(a))
-     THEN /\ pc' = [pc EXCEPT ![a] = IF Len(AppendFiles(a)) = 0 THEN "c_wlist_mark" ELSE "c_wman_mark"]
-          /\ UNCHANGED loc
-     ELSE IF AppendFiles(a)[loc[a].chk + 1] \in present
-          THEN /\ loc' = [loc EXCEPT ![a].chk = @ + 1]
-               /\ pc' = [pc EXCEPT ![a] = IF loc[a].chk + 1 >= Len(AppendFiles(a)) THEN "c_wman_mark" ELSE "c_checkdata"]
-          ELSE /\ pc' = [pc EXCEPT ![a] = "fail"]
-               /\ UNCHANGED loc
+  /\ loc[a].chk < Len(AppendFiles(a))
+  /\ IF AppendFiles(a)[loc[a].chk + 1] \in present
+     THEN /\ loc' = [loc EXCEPT ![a].chk = @ + 1]
+          /\ pc' = [pc EXCEPT ![a] = IF loc[a].chk + 1 >= Len(AppendFiles(a)) THEN "c_wman_mark" ELSE "c_checkdata"]
+     ELSE /\ pc' = [pc EXCEPT ![a] = "rollback"]
+          /\ loc' = [loc EXCEPT ![a].err = "error"]
   /\ UNCHANGED <<storageVars, clock, lockHolder, rlock, opi, att, faults, armed, ghostVars>>
 
 \* marker + manifest for the appended files (ADDED, this attempt's snapshot id and sequence number)
@@ -423,7 +428,7 @@ StampUpdate(a, t) ==
   /\ pc[a] = "c_stampupd"
   /\ ClockOK(t)
   /\ clock' = t
-  /\ loc' = [loc EXCEPT ![a].draft.lastUpd = IF FixStamp THEN Max(t, loc[a].base.lastUpd + 1) ELSE t]
+  /\ loc' = [loc EXCEPT ![a].draft.lastUpd = IF FixStamp THEN MaxI(t, loc[a].base.lastUpd + 1) ELSE t]
   /\ pc' = [pc EXCEPT ![a] = "c_readver"]
   /\ UNCHANGED <<storageVars, lockHolder, rlock, opi, att, faults, armed, ghostVars>>
 
@@ -469,9 +474,9 @@ SerialApply(s, a, sid) ==
   ELSE \* delsnap
       LET rest == SelectSeq(s.snaps, LAMBDA i : i # loc[a].sid) IN
       [s EXCEPT !.snaps = rest,
-                !.cur = IF s.cur = loc[a].sid THEN (IF Len(rest) = 0 THEN 0 ELSE Last(rest)) ELSE s.cur,
+                !.cur = IF s.cur = loc[a].sid THEN (IF Len(rest) = 0 THEN 0 ELSE LastOf(rest)) ELSE s.cur,
                 !.files = IF s.cur = loc[a].sid
-                          THEN (IF Len(rest) = 0 THEN {} ELSE tsOf[Last(rest)].files)
+                          THEN (IF Len(rest) = 0 THEN {} ELSE tsOf[LastOf(rest)].files)
                           ELSE s.files]
 
 \* the commit point (metadata_manager.py:285-320)
@@ -560,13 +565,6 @@ ReturnErr(a) ==
   /\ opi' = [opi EXCEPT ![a] = @ + 1]
   /\ UNCHANGED <<storageVars, clock, lockHolder, rlock, att, loc, faults, armed, commitLog, serial, tsOf, sidOfOp, reads, deleted>>
 
-\* a pre-commit failure outside the locks (missing base list / manifest / data file)
-Fail(a) ==
-  /\ pc[a] = "fail"
-  /\ loc' = [loc EXCEPT ![a].err = "error"]
-  /\ pc' = [pc EXCEPT ![a] = "rollback"]
-  /\ UNCHANGED <<storageVars, clock, lockHolder, rlock, opi, att, faults, armed, ghostVars>>
-
 \* ---- delete_snapshot (snapshot_manager.py:258-301): refresh, build, commit, no retry ----
 DsResolve(a, name) ==
   /\ pc[a] = "ds_resolve"
@@ -647,9 +645,7 @@ RReturn(a) ==
 (***************************************************************************)
 IdBase(a) == Idx[a] * 1000 + opi[a] * 100 + att[a] * 10
 MSid(a)   == IdBase(a) + 1
-MMan(a)   == IdBase(a) + 2           \* + position of the rewritten manifest is added below
-MAppMan(a) == IdBase(a) + 8
-MList(a)  == IdBase(a) + 9
+MNewFile(a) == IdBase(a) + 2 + Cardinality(loc[a].marks \ SeqToSet(AppendFiles(a)))   \* k-th manifest/list of this attempt
 MName(a)  == [v |-> loc[a].nextVer, u |-> IdBase(a)]
 
 CommitterNext(a) ==
@@ -658,11 +654,11 @@ CommitterNext(a) ==
   \/ \E n \in DOMAIN metas : ReadBase(a, n)
   \/ ReadBaseList(a)
   \/ ReadManifest(a)
-  \/ WriteMarkerM(a, CASE pc[a] = "c_rew_mark" -> MMan(a) + Len(loc[a].finalMans) [] pc[a] = "c_wman_mark" -> MAppMan(a) [] OTHER -> MList(a))
+  \/ WriteMarkerM(a, MNewFile(a))
   \/ RewriteManifest(a, loc[a].pend)
   \/ CheckData(a)
-  \/ WriteManifest(a, MAppMan(a), MSid(a))
-  \/ WriteList(a, MList(a), MSid(a))
+  \/ WriteManifest(a, loc[a].pend, MSid(a))
+  \/ WriteList(a, loc[a].pend, MSid(a))
   \/ StampSnapshot(a, NowVal)
   \/ TLock(a) \/ DLock(a)
   \/ \E n \in DOMAIN metas \cup {NoName} : Validate(a, n)
@@ -672,7 +668,7 @@ CommitterNext(a) ==
   \/ Fence(a) \/ FlipHint(a) \/ DUnlock(a) \/ TUnlock(a) \/ Backoff(a)
   \/ \E f \in loc[a].marks : DeleteMarker(a, f) \/ RollbackDeleteMarker(a, f)
   \/ \E f \in SeqToSet(loc[a].files) : RollbackDeleteData(a, f)
-  \/ ReturnOk(a) \/ ReturnErr(a) \/ Fail(a)
+  \/ ReturnOk(a) \/ ReturnErr(a)
   \/ \E n \in DOMAIN metas : DsResolve(a, n)
 
 ReaderNext(a) ==
